@@ -494,6 +494,9 @@ func modeBuild(seed uint64, n int, out *sx.Out) {
 	os.Mkdir(scratch+"/d", 0o755)
 	os.WriteFile(scratch+"/f", nil, 0o644)
 	accepted := 0
+	aliased := 0
+	var prevBuilt []byte
+	prevCopy := ""
 	for i := 0; i < n; i++ {
 		r := sx.Fork(seed, uint64(i))
 		if r.Chance(1, 8) {
@@ -553,6 +556,13 @@ func modeBuild(seed uint64, n int, out *sx.Out) {
 		if err == nil {
 			accepted++
 		}
+		// bytes handed out earlier belong to the caller: a later Build must not change them
+		if prevBuilt != nil && string(prevBuilt) != prevCopy {
+			aliased++
+		}
+		if err == nil {
+			prevBuilt, prevCopy = b, string(b)
+		}
 		rt := roundTrip(b, err)
 		desc := map[string]interface{}{"case": i, "line": line, "err": fmt.Sprint(err)}
 		if len(line) > 300 {
@@ -571,6 +581,7 @@ func modeBuild(seed uint64, n int, out *sx.Out) {
 			out.Case(fmt.Sprintf("BLine [%s] %s", strings.Join(tc, "; "), optBytes(b, err)), desc, "line/"+cls, err == nil)
 		}
 	}
+	out.Case(fmt.Sprintf("BAlias %d", aliased), map[string]interface{}{"earlier_results_changed_by_a_later_build": aliased}, "aliasing", true)
 	// value spellings: one filter per rule, the value word read back from the bytes Build returned
 	oddTexts := []string{"", "0x", "0X1G", "1_0", "_1", "1_", "0_7", "+5", "-0", "-0x10", "0b102", "0o17", "017", "089", "4294967295", "4294967296", "99999999999999999999",
 		"-2147483648", "-2147483649", "2147483648", "-1", "unset", "UNSET", "ENOENT", "-EPERM", "eperm", "-", "--1", "E", "rwxa", "rwxz", "", "RW", "FILE", "Socket", "dir", "fifo1",
